@@ -1272,6 +1272,9 @@ func (v *variantCallPacket) UnmarshalBinary(data []byte) (err error) {
 	}
 	p = p[v.TransactionID.Size():]
 
+	// The command object is optional; without it, drop the default of the constructor,
+	// so that Size() is the number of bytes consumed.
+	v.CommandObject = nil
 	if len(p) > 0 {
 		if v.CommandObject, err = amf0.Discovery(p); err != nil {
 			return oe.WithMessage(err, "discovery command object")
